@@ -3,7 +3,7 @@
    model replays the iteration orders the implementation used); the cardinality-limit default and the overflow attribute come from
    Gen/Consts.v, regenerated from /repo on every run.  A table is the list of its entries in iteration order; every place where the
    code walks a freshly built unordered_map takes the order as an input, and the theorems hold for every such input. *)
-From V Require Import C08.Glue C08.ProofsAttrs C08.ProofsHash C08.ProofsTable C08.ProofsStorage C08.ProofsMeets.
+From V Require Import C08.Glue C08.ProofsAttrs C08.ProofsHash C08.ProofsTable C08.ProofsStorage C08.ProofsMeets C08.ProofsWin C08.ProofsSeries.
 From Coq Require Import Permutation.
 Local Open Scope Z_scope.
 
@@ -124,18 +124,27 @@ Theorem collect_completes : forall c ops walks r, In r (run_ops c ops walks (ini
 Proof. exact collect_completes_lemma. Qed.
 Print Assumptions collect_completes.
 
-(* ---- the SPEC checkers that ./check runs on the implementation's observations accept the model's output.
-   Pairs of attribute sets (EQ cases) and directly driven hash maps (HM cases): all clauses, all values.
-   Storage histories (ST / MP cases): the clauses series_le_limit, overflow_conserves_total, duplicate_series, collect_completes
-   ([storage_clauses false]).  Full statement: the same with [storage_clauses true], which adds the two checks that look inside the
-   individual series (every reported set is the set of a recorded measurement or the overflow set; with fewer distinct sets than the
-   limit every series holds exactly the sum of its own measurements); those two are not proved of the model here (they need a per-series ghost history); they are
-   evaluated on the implementation's reports on every run. *)
+(* ---- inside the individual series: while fewer distinct attribute sets than the limit have occurred on the storage, nothing is
+   folded - for every collector, every report r of every history and walk order: the keys of r are pairwise different, every
+   measurement of the collector's window has its series, and the series of every key holds exactly the sum of the window's
+   measurements with that key ([exact], C08/ProofsSeries.v; [results_win] walks the history like [results_ok], the ghost state being
+   the representatives of the distinct sets seen so far, advanced by [add_rep] at every record) *)
+Theorem series_exact_below_limit : forall c ops walks,
+  results_win c _ (gstep c) (WpE c) (run_ops c ops walks (init_storage c)) ops [] [] (map (fun _ => O) (c_temps c)).
+Proof. exact reports_exact_below_limit. Qed.
+Print Assumptions series_exact_below_limit.
+
+(* ---- the SPEC checkers that ./check runs on the implementation's observations accept the model's output, all clauses:
+   pairs of attribute sets (EQ cases), directly driven hash maps (HM cases), storage histories (ST / MP cases) including the two
+   checks that look inside the individual series (every reported set is the set of a measurement of the window or the overflow
+   set; with fewer distinct sets than the limit every series holds exactly the sum of its own measurements).  The only hypothesis
+   besides limit >= 1 is that the walk orders fed to the model are orders of its tables (always the case in the differential run
+   unless the tie is broken). *)
 Theorem model_meets_spec :
   (forall f a b, eq_clauses f a b (eq_model f a b) = []) /\
   (forall L f ops walks, (1 <= L)%nat -> ~ In HRReject (run_hops L f ops walks []) ->
      hashmap_clauses L (existsb hop_nan ops) (run_hops L f ops walks []) = []) /\
   (forall c ops walks, (1 <= c_limit c)%nat -> ~ In CReject (run_ops c ops walks (init_storage c)) ->
-     storage_clauses false c ops (map robs_of (run_ops c ops walks (init_storage c))) = []).
-Proof. exact (conj eq_meets_spec (conj hashmap_meets_spec storage_meets_spec_partial)). Qed.
+     storage_clauses true c ops (map robs_of (run_ops c ops walks (init_storage c))) = []).
+Proof. exact (conj eq_meets_spec (conj hashmap_meets_spec storage_meets_spec)). Qed.
 Print Assumptions model_meets_spec.
